@@ -20,7 +20,7 @@ func init() {
 		"Decides the structural clauses of exact, overflow-free deadlines on every enumerated path: each stored deadline is the saturating sum of the operation's clock sample and the duration the hook returned on that path (C12.sat); hooks are selected by the pre-state - create for absent/expired, update/reload with the live old value, failure hook on failed reloads, read hook once per counted read - and an expired predecessor's value is never passed on (C12.hook, and C12.loadread for the loading reads); a replacing node inherits its predecessor's deadlines first (C12.inherit); the deadline writers are exactly the known sites (C12.sites); HasExpired/IsFresh have the same boundary in every variant (C12.bound). "+
 			"NOT decided: numeric equality deadline = now + d on concrete runs.",
 		[]string{"xmath.SaturatedAdd saturates (checked by C12.satfn)", "user-supplied calculators are pure with respect to the cache (the built-in ones are decided by C12.calc)"},
-		ruleC12Hooks, ruleC12Sites, ruleC12Bound, ruleC12Apply, ruleC10Finisher, ruleC12LoadReads, ruleC12Calc, ruleC12Clock, ruleC01Config)
+		ruleC12Hooks, ruleC12Sites, ruleC12Bound, ruleC12Apply, ruleC10Finisher, ruleC12LoadReads, ruleC12Calc, ruleC12Clock, ruleC01Config, ruleC03Deadline, ruleC03Filter)
 }
 
 func init() {
@@ -36,7 +36,7 @@ func init() {
 		"Decides the structural clauses of 'load outcomes map to cache state and results as documented' on every enumerated path: the load installer's decision table over (own record, not-found, error) (C10.table); the record invariants of doCall/doBulkCall - a not-found mark always comes with the not-found error, an overwritten error resets the mark, volunteered keys are registered before the error epilogue (C10.inv); a record's value reaches an API result only after wait and under err == nil, hits insert the live node's value under the looked-up key, misses return (record.value, record.err) (C10.result); BulkGet dispatches at most once, only its own records, duplicates skipped before the lookup (C10.once). "+
 			"NOT decided: exact result maps for arbitrary loader shapes beyond these guards.",
 		[]string{"loaders are opaque user functions", "in-flight table atomicity (C15)"},
-		ruleC10TableC10, ruleC10Inv, ruleC10Distribute, ruleC10Finisher, ruleLoadLemma, ruleLoadOps, ruleBulkOps, ruleC08Finish, ruleC10WrapLoad, ruleC10Adapter)
+		ruleC10TableC10, ruleC10Inv, ruleC10Distribute, ruleC10Finisher, ruleLoadLemma, ruleLoadOps, ruleBulkOps, ruleC08Finish, ruleC10WrapLoad, ruleC10Adapter, ruleC09Clear)
 	register("C11",
 		"Decides the structural clauses of refresh on every enumerated path: a hit returns the value cached at that moment and never loads inline (C11.old); a reload is scheduled only on the not-fresh edge and only inside an executor closure (C11.trigger); Reload gets the old value, Load is used for absent keys (C11.reloadarg); without refresh configured nothing is returned or scheduled, a manual refresh returns a capacity-1 channel and sends exactly one result on every non-panicking path, automatic refreshes send nothing (C11.chan); a failed reload keeps the entry and its expiry, a not-found reload of its own record removes it, a successful own reload installs (C10.table, C12.hook failure rows); an operation that writes nothing (SetIfAbsent on a live key, a cancelled compute) leaves the reload in flight, so its result still replaces the value (C09.clear). "+
 			"NOT decided: timing around the deadline and behaviour of asynchronous executors; one genuine defect is a known finding (bulk refresh leaves records in flight when a loader panic is re-raised).",
@@ -61,5 +61,5 @@ func init() {
 			"A deadline that has passed is the entry's own: a write over an absent or expired key takes the create hook and a fresh clock sample (C12.hook), so no entry is born with its predecessor's expired deadline; a loaded value is stored with a clock sample taken when it is stored, not when the load began (C10.finisher), so a slow load does not produce an entry that expires before its deadline. "+
 			"NOT decided: 'total weight exceeded the maximum at that moment' as a numeric fact.",
 		[]string{"the running totals are right (C04.acct decides who writes them)"},
-		rulePolicy, ruleEvict, ruleC07CauseFlow, ruleC13NoDrop, ruleC12Hooks, ruleC10Finisher)
+		rulePolicy, ruleEvict, ruleC07CauseFlow, ruleC13NoDrop, ruleC12Hooks, ruleC10Finisher, ruleC05Task)
 }
